@@ -2545,6 +2545,8 @@ def check_C09(ctx):
 def check_C03(ctx):
     rep, pdb = ctx.rep, ctx.pdb
     check_bestof(ctx, "C03", NEED_WITNESS, table="shape")
+    # the candidates are ranked with Five::hand_rank_value(): it is the value half of the function (F) speaks about
+    value_wiring(ctx, "E", sizes=((FIVE, 5),))
     fac = ctx.guard("F", premise_factor, ctx)
     if fac:
         rep.ob("C03.five-identity", "Five", fac["witness"] is fac["hand"], "five-card ranking does not report the input hand unchanged: %s" % describe_slots(arr_of(fac["witness"]) if fac["witness"][0] == "agg" else None), pdb.where(fac["key"]))
